@@ -132,7 +132,8 @@ def run_cases(case_lines, tag):
     """run all cases on implementation and model (sharded); returns (impl_lines, model_lines) dicts by id"""
     tmp = os.path.join(BUILD, 'run', tag)
     sh('rm -rf %s && mkdir -p %s' % (tmp, tmp))
-    n = max(1, min(NPROC, len(case_lines) // 50 + 1))
+    # few cases can still be slow ones (resets, boots): spread them over all cores
+    n = max(1, min(NPROC, len(case_lines) // 4 + 1))
     shards = [[] for _ in range(n)]
     for i, l in enumerate(case_lines):
         shards[i % n].append(l)
